@@ -1659,6 +1659,31 @@ func xProgramBody(p *Prog, r *R, prof string) {
 	}
 	p.newContainer()
 	p.newContainer()
+	if prof == "C14x" && r.chance(0.3) {
+		// a list all of whose elements are objects (or all lists), some of them derived structures: the All* family, the typed
+		// slices and the typed iteration treat a derived structure as what it is
+		wantObj := r.chance(0.5)
+		var vs []Operand
+		for k, nk := 0, 2+r.Intn(3); k < nk; k++ {
+			if wantObj {
+				p.do(&Op{Name: "NewObject", Vals: []Operand{{V: vstr("i")}, {V: vint(k)}}, Derived: r.chance(0.5)})
+			} else {
+				p.do(&Op{Name: "NewList", Vals: []Operand{{V: vint(k)}}, Derived: r.chance(0.5)})
+			}
+			vs = append(vs, Operand{IsReg: true, Reg: len(p.m.vars) - 1})
+		}
+		p.do(&Op{Name: "NewList", Vals: vs})
+		hl := len(p.m.vars) - 1
+		kd := at.TypeList
+		if wantObj {
+			kd = at.TypeObject
+		}
+		p.do(&Op{Name: "XLAll", R: hl, Kind: kd})
+		p.do(&Op{Name: "XLSliceK", R: hl, Kind: kd})
+		p.do(&Op{Name: "XLForEachK", R: hl, Kind: kd})
+		p.do(&Op{Name: "XLFilterK", R: hl, Kind: kd, Pred: "PAll"})
+		p.do(&Op{Name: "XLMapK", R: hl, Kind: kd, Mapf: "MId"})
+	}
 	step := func() {
 		ls, os := p.listRegs(), p.objRegs()
 		anyReg := func() int { return r.Intn(len(p.m.vars)) }
